@@ -37,7 +37,12 @@ func genOverrideAnnotations(r *rand.Rand) map[string]string {
 		if r.Intn(3) != 0 {
 			continue
 		}
-		switch r.Intn(5) {
+		switch r.Intn(7) {
+		case 5:
+			// valid JSON that does not decode as ResourceRequirements: creation ignores it
+			m[overrideKey(testNS, testEDS, c)] = pick(r, `{"limits":{"cpu":"a lot"}}`, `"500m"`, `[1,2]`, `{"limits":5}`)
+		case 6:
+			m[overrideKey(testNS, testEDS, c)] = pick(r, `null`, `{"limits":null}`, `{"unknownField":1}`, ` {"limits":{"cpu":"1"}} `)
 		case 0:
 			m[overrideKey(testNS, testEDS, c)] = `{"limits":{"cpu":"1"}}`
 		case 1:
